@@ -341,7 +341,7 @@ func HarnessC14_base64() {
 	vCover("base64.checked")
 }
 
-var c14Values = []any{"hello", "", 12, true, 1.5, "a b", "x:y", "línea"}
+var c14Values = []any{"hello", "", 12, true, 1.5, "a b", "x:y", "línea", "x\n", "l1\nl2\n\n", " pad ", "\ttab"}
 
 // HarnessC14_codecs: sha256 / base64 / json / yaml / toml on a table of
 // concrete values against the standard library, and $decode as the inverse
@@ -363,7 +363,22 @@ func HarnessC14_codecs() {
 	default:
 		// $decode inverts $encode for json and yaml (and toml for maps)
 		f := []string{"json", "yaml", "toml"}[ndChoice(3)]
-		var val any = map[string]any{"k": v, "l": []any{v, 1}}
+		// v at an inner position, as the last scalar of the document (last
+		// key, last list entry) and as the whole document
+		var val any
+		switch ndChoice(4) {
+		case 0:
+			val = map[string]any{"k": v, "l": []any{v, 1}}
+		case 1:
+			val = map[string]any{"a": 1, "z": v}
+		case 2:
+			val = map[string]any{"l": []any{1, v}}
+		default:
+			val = v
+		}
+		if _, isMap := val.(map[string]any); !isMap && f == "toml" {
+			val = map[string]any{"z": v} // a TOML document is a table
+		}
 		enc, err := c06Eval(map[string]any{"e": map[string]any{"$encode": f, "$value": vCopy(val)}})
 		vAssert("C14.encode.accepted", err == nil)
 		text := enc[0].(map[string]any)["e"]
